@@ -3,7 +3,7 @@
    contract WaitOK (returned slice is a prefix of D, ok iff index inside it, not ok only when D is complete).
    Every interleaving, block size and timing is one such oracle (M_contract in Conc.v: C05). *)
 From Coq Require Import Arith List Lia Bool ZArith.
-Require Import LayerC HistModel HistProof.
+Require Import LayerC LayerC2 HistModel HistProof.
 Import ListNotations.
 
 (* At(i) is D[i] or absent, for every oracle and every call number (history) *)
@@ -34,6 +34,53 @@ Theorem C04_history_independent : forall (D : nat -> option nat), (forall i, D i
   it_pulls D W cs1 (it_new W c1 idx) = it_pulls D W cs2 (it_new W c2 idx).
 Proof. exact it_history_independent. Qed.
 Print Assumptions C04_history_independent.
+
+Local Close Scope Z_scope.
+(* ---- the remaining wrappers (LayerC2.v), each for every oracle ---- *)
+(* v3 IteratorAt(index, limit) with its deferred first wait: every pull delivers D cut at the limit at the iterator's
+   own position, whatever happened before the first pull and between pulls *)
+Theorem C04_v3_iterator : forall (D : nat -> option nat), (forall i, D i = None -> D (S i) = None) ->
+  forall (W : nat -> nat -> nat * bool), (forall c i, WaitOK D i (W c i)) ->
+  forall c1 c2 s, It3Inv D s ->
+  let '(r, s') := it3_next D W c1 c2 s in
+  r = Dlim D (j_limit s) (j_idx s) /\ It3Inv D s' /\ j_limit s' = j_limit s /\
+  j_idx s' = (if r then S (j_idx s) else j_idx s).
+Proof. exact it3_next_spec. Qed.
+Print Assumptions C04_v3_iterator.
+
+(* limitSpec.At *)
+Theorem C04_limit_at : forall (D : nat -> option nat), (forall i, D i = None -> D (S i) = None) ->
+  forall (W : nat -> nat -> nat * bool), (forall c i, WaitOK D i (W c i)) ->
+  forall c limit index, lim_at D W c limit index = Dlim D limit index.
+Proof. exact lim_at_spec. Qed.
+
+(* FirstN(n) (behind Reverse, Backward, FullReverse, NumDigits, allDigits): exactly the digits below n that exist *)
+Theorem C04_first_n : forall (D : nat -> option nat) (W : nat -> nat -> nat * bool), (forall c i, WaitOK D i (W c i)) ->
+  forall c n, let L := first_n_len W c n in
+  L <= n /\ (forall j, j < L -> D j <> None) /\ (L < n -> D L = None).
+Proof. exact first_n_spec. Qed.
+Print Assumptions C04_first_n.
+
+(* v1/v2 limitSpec.IteratorAt over any inner pull iterator delivering E: E cut at the limit *)
+Theorem C04_limit_iterator : forall (E : nat -> option nat) (St : Type) (inner_next : nat -> St -> option nat * St)
+    (pos : St -> nat) (InvI : St -> Prop),
+  (forall c s, InvI s -> let '(r, s') := inner_next c s in r = E (pos s) /\ InvI s' /\ pos s' = (if r then S (pos s) else pos s)) ->
+  forall limit c index s, InvI s -> pos s = index -> index <= limit ->
+  let '(r, (index', s')) := lim_next St inner_next limit c (index, s) in
+  r = (if index <? limit then E index else None) /\ InvI s' /\ (r <> None -> pos s' = index' /\ index' <= limit).
+Proof. exact lim_next_spec. Qed.
+
+(* v1/v2 fullIteratorAt (FullIterator, v2 Iterator): prefetching wrapper delivers (position, digit) consecutively *)
+Theorem C04_full_iterator : forall (E : nat -> option nat) (St : Type) (inner_next : nat -> St -> option nat * St)
+    (pos : St -> nat) (InvI : St -> Prop),
+  (forall c s, InvI s -> let '(r, s') := inner_next c s in r = E (pos s) /\ InvI s' /\ pos s' = (if r then S (pos s) else pos s)) ->
+  forall c st, FullInv E St pos InvI st ->
+  let index := fst (fst st) in
+  let '(r, st') := full_next St inner_next c st in
+  r = (match E index with Some d => Some (index, d) | None => None end) /\ FullInv E St pos InvI st' /\
+  fst (fst st') = (if r then S index else index).
+Proof. exact full_next_spec. Qed.
+Print Assumptions C04_full_iterator.
 
 (* the reference listing used by the correspondence run is consecutive, carries the true digits and stops
    exactly at the end of the view *)
